@@ -11,12 +11,16 @@ CLAIM = dict(
     technique="runtime monitoring: history driver applying every operation sequence to the utl:: container and to a std:: model side by side, "
               "counting allocator behind nmtools_malloc/free/memcpy (live set per history), counted element type (constructor/destructor registry), "
               "SVEC_CAPACITY / bounds hooks, ASan+UBSan build; valgrind memcheck on a sample in the thorough tier",
-    text="Every history (all sequences over a 13-19 symbol alphabet of construct/copy/assign(other|self)/push_back/resize/write/destroy on two objects "
-         "up to length 4-5 (thorough 5-6, reduced alphabet to 7), plus seeded random histories up to length 60 (thorough 200)) is executed on utl::vector, "
-         "static_vector, array, tuple, tuplev2, maybe, either and small_vector (all-utl and default configuration) with element types int, double, a counted "
-         "non-trivial type and utl::vector<int>; after every step size/elements/has_value/active alternative of both objects are compared with the std:: model "
-         "(C++ side) and, for traced histories, with an independent Python model; allocator live set, object registry and hook counters are checked at every "
-         "quiescent point. Held-on-observed, not a proof.",
+    text="26 container x element configurations: utl::vector, static_vector, array, tuple, tuplev2, maybe, either and small_vector (all-utl = NMTOOLS_DISABLE_STL "
+         "configuration and default configuration) with int, double, a counted non-trivial type and utl::vector<int> as elements, plus vector<counted>, and scripted "
+         "histories for vector<maybe<int>> / vector<either<int,double>>. Per configuration every operation sequence over a 13-19 symbol alphabet "
+         "(default/sized/variadic/copy construct, assign other|self, push_back, resize 0..cap+2, write, destroy on two objects) of length 4 "
+         "(5 for vector<int> and either<counted,int>; thorough: 5, and 6 for four configurations, 10^7 sequences of length 7 over a 10-symbol alphabet for vector/static_vector) "
+         "is executed, plus 500 seeded random histories of length <= 60 (thorough 6000 of length <= 200): quick ~5.5e6 histories / 3.5e7 steps. After every step size, every "
+         "specified element, has_value / active alternative of both objects are compared with a std:: model in the harness and, for the traced histories, with an "
+         "independent Python model (copy independence, self-assignment, refusal at capacity with unchanged contents and SVEC_CAPACITY hook event); the counting "
+         "allocator behind nmtools_malloc/free/memcpy (live set, double free, free of unknown pointer, memcpy outside its block), the constructor/destructor registry of "
+         "the counted type and the bounds hooks are checked at every quiescent point. Held-on-observed, not a proof.",
     note="Cells created by a sized constructor or a growing resize and never written are unspecified (malloc) and are neither read nor compared; "
          "raw storage of the objects is pre-filled (0x00, and 0xCD for scripted histories) so that use of unconstructed members is deterministic. "
          "Trusted: std:: containers / Python lists as the model, ASan/UBSan/valgrind, the counting allocator of harness/c19_hist.hpp.",
